@@ -194,13 +194,13 @@ def leads (p : Profile) : Doc → Bool
   | .cond _ a _ => if p.style = .py then leads p a else false
   | .paren _ => false
 
-/-- `generateDoubleCode` -/
+/-- `generateDoubleCode`: a mantissa without a decimal point gets `.0`, before the exponent marker if there is one -/
 def doubleCode (v : String) : String :=
   if v.contains '.' then v
-  else match v.splitOn "e" with
-    | [x] => x ++ ".0"
-    | x :: rest => x ++ ".0e" ++ "e".intercalate rest
-    | [] => v
+  else
+    let cs := v.toList
+    let pre := cs.takeWhile (fun c => c ≠ 'e' ∧ c ≠ 'E')
+    String.ofList (pre ++ ['.', '0'] ++ cs.drop pre.length)
 
 /-- is the text a CellML real equal to `n/d`?  (`convertToDouble` + `areEqual`; exact comparison) -/
 def isNumber (code : String) (n d : Nat) : Bool :=
